@@ -1,16 +1,32 @@
-(* C08 — property theorems (statements only; proofs in ProofsOrder/ProofsLoad/ProofsMain).
-   H is SHA-1 (abstract). [load H b u]: the loader on torrent object b whose "info" dictionary
-   carries flag_unordered = u. *)
+(* C08 — property theorems (statements only; proofs in ProofsOrder / ProofsLoad / ProofsTotal /
+   ProofsTok / ProofsB32 / ProofsMain). H is SHA-1 (abstract).
+   [load H b u]: DownloadConstructor::initialize + torrent::download_add on the torrent object b
+   whose "info" dictionary carries flag_unordered = u, for the code after the fix commits
+   3f25386, ad1f0db, 732629d. *)
 From Coq Require Import List NArith ZArith Bool.
 From LTV Require Import Common.Bytes.
 From LTV.C07 Require Import Model.
-From LTV.C08 Require Import Model ProofsOrder ProofsLoad ProofsMain.
+From LTV.C08 Require Import Model ProofsOrder ProofsLoad ProofsTotal ProofsTok ProofsB32 ProofsMain.
 Import ListNotations.
 Local Open Scope N_scope.
 
 Theorem params_ok_now : ProofsMain.params_ok = true.
 Proof. exact ProofsMain.params_ok_now. Qed.
 Print Assumptions params_ok_now.
+
+(* no input crashes the loader: never a dereference outside a checked range (LFault), never an
+   internal_error (EInternal: FileList::initialize chunk size 0, FileList::split size mismatch,
+   verify_file_list, tracker::Manager::add_controller zero hash), for ALL objects and flags *)
+Theorem load_total : forall (H : bytes -> bytes) b u,
+  (exists d, load H b u = LOk d) \/ load H b u = LErr EInput \/ load H b u = LErr EBencode.
+Proof. exact ProofsTotal.load_total_cases. Qed.
+Print Assumptions load_total.
+
+(* fuel sufficiency of the magnet loop (part of load_total, stated on its own) *)
+Theorem magnet_loop_total : forall fuel pos hash tr, (length pos < fuel)%nat ->
+  is_bad (magnet_loop fuel pos hash tr) = false.
+Proof. exact ProofsTotal.magnet_loop_nb. Qed.
+Print Assumptions magnet_loop_total.
 
 (* the sorted-adjacency check of parse_multi_files is sound for the UNSORTED list *)
 Theorem adjacent_check_sound : forall l : list path,
@@ -25,6 +41,15 @@ Theorem paths_contained : forall (H : bytes -> bytes) b u d root f,
 Proof. exact ProofsMain.paths_contained. Qed.
 Print Assumptions paths_contained.
 
+(* tokenisation: the kernel walks the frozen path STRING as the root's components followed by
+   exactly the file's components *)
+Theorem frozen_tokens : forall (H : bytes -> bytes) b u d root f,
+  load H b u = LOk d -> In f (d_files d) ->
+  tokens (frozen_path (set_root_dir root) f) = tokens (set_root_dir root) ++ f_path f /\
+  mem_byte 0 (path_as_string (f_path f)) = false.
+Proof. exact ProofsMain.frozen_tokens. Qed.
+Print Assumptions frozen_tokens.
+
 Theorem no_dup_no_prefix : forall (H : bytes -> bytes) b u d,
   load H b u = LOk d -> no_prefix (map f_path (d_files d)).
 Proof. exact ProofsMain.no_dup_no_prefix. Qed.
@@ -33,37 +58,27 @@ Print Assumptions no_dup_no_prefix.
 Theorem sizes_sum : forall (H : bytes -> bytes) b u d,
   load H b u = LOk d ->
   offsets_from 0 (d_files d) /\ sum_size (d_files d) = d_size d /\
-  (d_multi d = true -> d_size d < two63) /\ (d_meta d = false -> d_size d <> 0).
+  (int64_ok b = true -> d_size d < two63) /\ (d_meta d = false -> d_size d <> 0).
 Proof. exact ProofsMain.sizes_sum. Qed.
 Print Assumptions sizes_sum.
 
-Theorem piece_count_guarantee : forall (H : bytes -> bytes) b u d,
-  load H b u = LOk d ->
-  d_chunk_size d <> 0 /\
-  d_chunks d = ((d_size d + d_chunk_size d - 1) mod two64 / d_chunk_size d) mod two32 /\
-  20 * d_chunks d <= N.of_nat (length (d_pieces d)) /\
-  Forall (fun f => (f_r1 f, f_r2 f) = set_range (f_offset f) (f_size f) (d_chunk_size d)) (d_files d).
-Proof. exact ProofsMain.piece_count_guarantee. Qed.
-Print Assumptions piece_count_guarantee.
+Theorem piece_count_matches : forall (H : bytes -> bytes) b u d,
+  int64_ok b = true -> load H b u = LOk d ->
+  d_chunk_size d <> 0 /\ d_size d < two63 /\
+  d_chunks d = (d_size d + d_chunk_size d - 1) / d_chunk_size d /\
+  d_chunks d < two32 /\
+  N.of_nat (length (d_pieces d)) = 20 * d_chunks d.
+Proof. exact ProofsMain.piece_count_matches. Qed.
+Print Assumptions piece_count_matches.
 
-Theorem piece_count_matches_small : forall (H : bytes -> bytes) b u d,
-  load H b u = LOk d -> d_size d < two63 -> d_chunk_size d < two32 ->
-  (d_size d + d_chunk_size d - 1) / d_chunk_size d < two32 ->
-  d_chunks d = (d_size d + d_chunk_size d - 1) / d_chunk_size d.
-Proof. exact ProofsMain.piece_count_matches_small. Qed.
-Print Assumptions piece_count_matches_small.
-
-(* the full piece-count clause is FALSE of the code as it is: computed witnesses *)
-Theorem piece_count_matches_refuted :
-  exists b d, load H0 b false = LOk d /\
-    d_chunks d <> (d_size d + d_chunk_size d - 1) / d_chunk_size d /\ d_pieces d = [] /\ d_chunks d = 0.
-Proof. exact ProofsMain.piece_count_matches_refuted. Qed.
-Print Assumptions piece_count_matches_refuted.
-
-Theorem pieces_length_exact_refuted :
-  exists b d, load H0 b false = LOk d /\ d_chunks d = 1 /\ N.of_nat (length (d_pieces d)) = 41.
-Proof. exact ProofsMain.pieces_length_exact_refuted. Qed.
-Print Assumptions pieces_length_exact_refuted.
+Theorem file_ranges_exact : forall (H : bytes -> bytes) b u d f,
+  int64_ok b = true -> load H b u = LOk d -> In f (d_files d) ->
+  f_r1 f = f_offset f / d_chunk_size d /\
+  f_r2 f = (if f_size f =? 0 then f_offset f / d_chunk_size d
+            else (f_offset f + f_size f + d_chunk_size d - 1) / d_chunk_size d) /\
+  f_offset f + f_size f <= d_size d.
+Proof. exact ProofsMain.file_ranges_exact. Qed.
+Print Assumptions file_ranges_exact.
 
 Theorem infohash_canonical : forall (H : bytes -> bytes) b u d m,
   load H b u = LOk d -> as_map b = LOk m -> has_key_map m k_info = true ->
@@ -83,8 +98,23 @@ Theorem infohash_never_zero : forall (H : bytes -> bytes) b u d,
 Proof. exact ProofsMain.infohash_never_zero. Qed.
 Print Assumptions infohash_never_zero.
 
-(* "never anything but an input error" is FALSE of the code as it is: the all-zero magnet hash
-   reaches an internal_error in tracker::Manager::add_controller *)
-Theorem load_total_refuted : forall H : bytes -> bytes, load_uri H magnet_zero = LErr EInternal.
-Proof. exact ProofsMain.load_total_refuted. Qed.
-Print Assumptions load_total_refuted.
+(* magnet: parse_base32_sha1 accepts exactly 32 RFC 4648 characters (either case) ended by the
+   end of input or '&', and yields the 20 big-endian bytes of the number they spell *)
+Theorem base32_sound : forall s h rest,
+  parse_base32_sha1 s = Some (h, rest) ->
+  exists cs vals, length cs = 32%nat /\ map b32_val cs = map Some vals /\
+    (s = cs /\ rest = [] \/ s = cs ++ ch_amp :: rest) /\
+    length h = 20%nat /\ Forall (fun b => b < 256) h /\ be_num h = b32_num vals.
+Proof. exact ProofsB32.base32_sound. Qed.
+Print Assumptions base32_sound.
+
+Theorem base32_complete : forall cs vals rest (amp : bool),
+  length cs = 32%nat -> map b32_val cs = map Some vals ->
+  (amp = false -> rest = []) ->
+  exists h, parse_base32_sha1 (cs ++ (if amp then ch_amp :: rest else [])) = Some (h, rest).
+Proof. exact ProofsB32.base32_complete. Qed.
+Print Assumptions base32_complete.
+
+Theorem base32_alphabet_rfc4648 : forall c, b32_val c = index_of (upper c) rfc_alphabet 0.
+Proof. exact ProofsB32.b32_val_rfc. Qed.
+Print Assumptions base32_alphabet_rfc4648.
